@@ -182,6 +182,9 @@ func handleJOIN(c *Client, e Event) {
 	if len(e.Params) >= 2 {
 		if e.Params[1] != "*" {
 			user.Extras.Account = e.Params[1]
+		} else {
+			// "*" means the user is not logged in.
+			user.Extras.Account = ""
 		}
 
 		if len(e.Params) > 2 {
